@@ -197,11 +197,22 @@ pub struct CharsetByte {
     pub eci: Option<u32>,
     pub byte: u8,
     pub via_base256: bool,
+    /// Some(236 | 237): the stream starts with a Macro 05 / 06 codeword (header and trailer are
+    /// re-created by the decoder around the payload)
+    pub macro_cw: Option<u8>,
 }
 
 impl Case for CharsetByte {
     fn to_json(&self) -> Value {
-        json!({"eci": self.eci, "byte": self.byte, "via_base256": self.via_base256})
+        json!({"eci": self.eci, "byte": self.byte, "via_base256": self.via_base256, "macro": self.macro_cw})
+    }
+}
+
+/// what the decoder must put around the payload of a macro stream
+fn macro_wrap(macro_cw: Option<u8>, inner: Result<String, ()>) -> Result<String, ()> {
+    match macro_cw {
+        None => inner,
+        Some(cw) => inner.map(|s| format!("[)>\u{1e}0{}\u{1d}{}\u{1e}\u{04}", if cw == 236 { 5 } else { 6 }, s)),
     }
 }
 
@@ -247,11 +258,14 @@ fn expected_text(eci: Option<u32>, payload: &[u8]) -> Result<String, ()> {
 
 fn check_charset_byte(c: &CharsetByte) -> Verdict {
     let mut stream = Vec::new();
+    if let Some(m) = c.macro_cw {
+        stream.push(m);
+    }
     if let Some(e) = c.eci {
         stream.extend(eci_codewords(e));
     }
     carry(&[c.byte], c.via_base256, &mut stream);
-    let want = expected_text(c.eci, &[c.byte]);
+    let want = macro_wrap(c.macro_cw, expected_text(c.eci, &[c.byte]));
     let got = match guard(|| datamatrix::data::decode_str(&stream)) {
         Ok(g) => g,
         Err(p) => return fail(format!("decode_str panicked for byte 0x{:02X} under ECI {:?}: {} (stream {:?})", c.byte, c.eci, p, stream)),
@@ -273,7 +287,7 @@ fn check_charset_byte(c: &CharsetByte) -> Verdict {
             ))
         }
     }
-    Verdict::Pass(Pass::new(format!("charset/eci{:?}/{}", c.eci, if want.is_ok() { "mapped" } else { "rejected" }), c.byte >= 0xA0 && matches!(c.eci, Some(11) | Some(13))))
+    Verdict::Pass(Pass::new(format!("charset/eci{:?}{}/{}", c.eci, if c.macro_cw.is_some() { "/macro" } else { "" }, if want.is_ok() { "mapped" } else { "rejected" }), c.byte >= 0xA0 && (matches!(c.eci, Some(11) | Some(13)) || c.macro_cw.is_some())))
 }
 
 // ---------------------------------------------------------------------------------------------
@@ -284,11 +298,13 @@ fn check_charset_byte(c: &CharsetByte) -> Verdict {
 pub struct EciPayload {
     /// (eci or None for "no designator, only allowed first", payload bytes, via base256)
     pub segs: Vec<(Option<u32>, Vec<u8>, bool)>,
+    /// Some(236 | 237): Macro 05 / 06 codeword in first position
+    pub macro_cw: Option<u8>,
 }
 
 impl Case for EciPayload {
     fn to_json(&self) -> Value {
-        json!({"segments": self.segs.iter().map(|(e, p, b)| json!({"eci": e, "payload": hex(p), "via_base256": b})).collect::<Vec<_>>()})
+        json!({"segments": self.segs.iter().map(|(e, p, b)| json!({"eci": e, "payload": hex(p), "via_base256": b})).collect::<Vec<_>>(), "macro": self.macro_cw})
     }
 }
 
@@ -296,12 +312,16 @@ impl EciPayload {
     fn from_json(v: &Value) -> Option<Self> {
         Some(EciPayload {
             segs: v["segments"].as_array()?.iter().map(|s| Some((s["eci"].as_u64().map(|x| x as u32), unhex(s["payload"].as_str()?)?, s["via_base256"].as_bool()?))).collect::<Option<Vec<_>>>()?,
+            macro_cw: v["macro"].as_u64().map(|x| x as u8),
         })
     }
 }
 
 fn check_payload(c: &EciPayload) -> Verdict {
     let mut stream = Vec::new();
+    if let Some(m) = c.macro_cw {
+        stream.push(m);
+    }
     let mut want: Result<String, ()> = Ok(String::new());
     for (i, (eci, payload, b256)) in c.segs.iter().enumerate() {
         if let Some(e) = eci {
@@ -318,6 +338,7 @@ fn check_payload(c: &EciPayload) -> Verdict {
             _ => Err(()),
         };
     }
+    let want = macro_wrap(c.macro_cw, want);
     let got = match guard(|| datamatrix::data::decode_str(&stream)) {
         Ok(g) => g,
         Err(p) => return fail(format!("decode_str panicked: {} (case {}, stream {:?})", p, c.to_json(), stream)),
@@ -368,14 +389,14 @@ fn g_payload() -> BoxedStrategy<EciPayload> {
         }
         (Some(eci), payload, b256)
     });
-    (vec(seg, 1..=4), any::<bool>())
-        .prop_map(|(mut segs, drop_first)| {
+    (vec(seg, 1..=4), any::<bool>(), any::<u8>())
+        .prop_map(|(mut segs, drop_first, m)| {
             if drop_first {
                 // first segment without designator: default interpretation (Latin-1)
                 segs[0].0 = None;
                 segs[0].1 = segs[0].1.iter().map(|b| if charset::is_printable_byte(*b) { *b } else { b | 0xa0 }).collect();
             }
-            EciPayload { segs }
+            EciPayload { segs, macro_cw: match m % 8 { 0 => Some(236), 1 => Some(237), _ => None } }
         })
         .boxed()
 }
@@ -389,11 +410,13 @@ fn run(ctx: &Arc<Ctx>) {
     for eci in [None, Some(0u32), Some(3), Some(11), Some(13), Some(26), Some(27)] {
         for b in 0..=255u8 {
             for via in [false, true] {
-                bytes.push(CharsetByte { eci, byte: b, via_base256: via });
+                for macro_cw in [None, Some(236u8), Some(237)] {
+                    bytes.push(CharsetByte { eci, byte: b, via_base256: via, macro_cw });
+                }
             }
         }
     }
-    ctx.run_enumerated("charset-bytes", "charsetbyte", bytes, Some("256 byte values x {no ECI, 0, 3, 11, 13, 26, 27} x {ASCII/upper shift, Base256}"), check_charset_byte);
+    ctx.run_enumerated("charset-bytes", "charsetbyte", bytes, Some("256 byte values x {no ECI, 0, 3, 11, 13, 26, 27} x {ASCII/upper shift, Base256} x {no macro, Macro 05, Macro 06}"), check_charset_byte);
     ctx.run_generated("payloads", "payload", ctx.cases(600_000, 12_000_000), g_payload, check_payload);
 }
 
@@ -401,7 +424,7 @@ fn replay(_ctx: &Ctx, kind: &str, case: &Value) -> Option<Verdict> {
     match kind {
         "eciblock" => Some(check_eci_block(&EciBlock { start: case["eci_start"].as_u64()? as u32, len: case["eci_len"].as_u64()? as u32 })),
         "designator" => Some(check_designator_block(&DesignatorBlock { a: case["first_designator_codeword"].as_u64()? as u8 })),
-        "charsetbyte" => Some(check_charset_byte(&CharsetByte { eci: case["eci"].as_u64().map(|x| x as u32), byte: case["byte"].as_u64()? as u8, via_base256: case["via_base256"].as_bool()? })),
+        "charsetbyte" => Some(check_charset_byte(&CharsetByte { eci: case["eci"].as_u64().map(|x| x as u32), byte: case["byte"].as_u64()? as u8, via_base256: case["via_base256"].as_bool()?, macro_cw: case["macro"].as_u64().map(|x| x as u8) })),
         "payload" => Some(check_payload(&EciPayload::from_json(case)?)),
         _ => None,
     }
